@@ -2,6 +2,7 @@
 from vk import driver, epy, report, smt, valtheory
 from contracts import c13 as K
 from contracts import c13_native as N
+from contracts import c13_fx as FX
 from props.common import SRC, parse_args
 
 PROP = "C13"
@@ -70,6 +71,35 @@ def main():
             w = fn()
             run.add_bounded(f"{name}: native contract evaluation", "nested maps of depth <= 2 over keys {a,b}, leaves {1, DefaultValue(2)}",
                             getattr(fn, "evaluations", 0), w is None, str(w or ""))
+    # aliasing clause, deductive part: ownership / freshness obligation on the real AST (E-FX)
+    try:
+        fn, _ = epy.find_function(SRC, "nunavut/_utilities.py:deep_update")
+        afn, _ = epy.find_function(SRC, "nunavut/_utilities.py:DefaultValue.assign_to_if_not_default")
+        alias_w = None
+        for name, ok, detail in FX.check(fn, afn):
+            if ok is False:
+                if alias_w is None:
+                    alias_w = N.aliasing_witness(quick=True) or {}
+                w = alias_w
+                run.fail(report.Failure(name, "frame", detail + (f"; real code: {w.get('input')} -> {w.get('why')}" if w else ""),
+                                        {"witness": w or None, "detail": detail}, bool(w)))
+            run.add_check(name, ok, "E-FX ownership rules", 0.0, detail)
+        run.add_function("nunavut/_utilities.py:deep_update (freshness/frame, E-FX)")
+    except epy.BindingError as ex:
+        run.undecide(f"freshness: {ex}")
+    # aliasing clauses across merges and builders: bounded stand-in (never counted as proved)
+    w = N.aliasing_witness(quick=(args.tier != "thorough"))
+    run.add_bounded("source documents unmodified by later merges (native, real deep_update)",
+                    "targets/sources of depth <= 2 over keys {a,b} plus depth-3 chains; every later document of the same family",
+                    getattr(N.aliasing_witness, "evaluations", 0), w is None, str(w or ""))
+    if w is not None and not any(f.obligation.startswith("deep_update#freshness") for f in run.failures):
+        run.fail(report.Failure("deep_update#aliasing(bounded)", "frame", f"real code: {w['input']} -> {w['why']}", {"witness": w}, True))
+    w = N.builder_history_witness(quick=(args.tier != "thorough"))
+    run.add_bounded("a context created earlier is unaffected by later builders (native, real LanguageContextBuilder)",
+                    "sequences of 2-3 builders over {c, cpp/c++14, cpp/c++17-pmr, py} x flag overrides", getattr(N.builder_history_witness, "evaluations", 0),
+                    w is None, str(w or ""))
+    if w is not None:
+        run.fail(report.Failure("LanguageContextBuilder#history(bounded)", "frame", f"real code: {w['input']} -> {w['why']}", {"witness": w}, True))
     res = smt.solve_all(lemmas())
     run.add_results(res)
     run.add_function("M (merge specification): precedence lemmas")
